@@ -66,7 +66,7 @@ class GeometricMTF(SpotDiagram):
                 # working F-number for a finite object (as in FFTMTF._get_fno)
                 p = optic.paraxial.XPD() / optic.paraxial.EPD()
                 m = optic.paraxial.magnification()
-                FNO *= (1 + np.abs(m) / p)
+                FNO = FNO * (1 + np.abs(m) / p)
             self.max_freq = 1 / (wavelength * 1e-3 * FNO)
 
         super().__init__(optic, fields, [wavelength], num_rays, distribution)
@@ -308,7 +308,7 @@ class FFTMTF:
             D = self.optic.paraxial.XPD()
             p = D / self.optic.paraxial.EPD()
             m = self.optic.paraxial.magnification()
-            FNO *= (1 + np.abs(m) / p)
+            FNO = FNO * (1 + np.abs(m) / p)
 
         return FNO
 
